@@ -16,7 +16,7 @@ base=$(/verif/tools/baseline.sh "$W/mut" | head -1)
 demo=$(ls "$SRC"/*_test.go "$SRC"/demo_test.go 2>/dev/null | head -1)
 dres="no demo test file"
 if [ -n "$demo" ]; then
-  tname=$(grep -o 'func Test[A-Za-z0-9_]*' "$demo" | head -1 | sed 's/func //')
+  tname="^($(grep -o 'func Test[A-Za-z0-9_]*' "$demo" | sed 's/func //' | paste -sd'|'))\$"
   cp "$demo" "$W/clean/zz_seed_demo_test.go"; cp "$demo" "$W/mut/zz_seed_demo_test.go"
   (cd "$W/clean" && timeout 300 go test -vet=off -count=1 -run "$tname" . >"$W/clean.out" 2>&1); rc_clean=$?
   (cd "$W/mut" && timeout 300 go test -vet=off -count=1 -run "$tname" . >"$W/mut.out" 2>&1); rc_mut=$?
